@@ -25,7 +25,7 @@ ASSUMPTIONS = [
 ]
 GATES = {
     "every_dataset_fault_refused_on_3_shapes": 1, "every_input_fault_class_seen": 1, "well_formed_multiband_grids_accepted": 1,
-    "well_formed_accepted": 20, "malformed_refused": 100, "refusal_before_matching": 3,
+    "well_formed_accepted": 20, "malformed_refused": 100, "refusal_before_matching": 3, "checks_on_rewritten_paths": 10,
 }
 
 DS_FAULTS = [
@@ -49,6 +49,7 @@ def plan(tier, seed):
         specs.append({"name": f"ds-pairs-{i}", "work": "ds-pairs", "part": i, "n": 150 if tier == "quick" else 1200})
         specs.append({"name": f"in-pairs-{i}", "work": "in-pairs", "part": i, "n": 60 if tier == "quick" else 500})
     specs.append({"name": "upfront", "work": "upfront"})
+    specs.append({"name": "paths-history", "work": "paths", "n": 6 if tier == "quick" else 60})
     return specs
 
 
@@ -75,6 +76,9 @@ def cases(spec, ctx):
     elif w == "in-pairs":
         for i in range(spec["n"]):
             yield {"work": "in-rand", "part": spec["part"], "i": i}
+    elif w == "paths":
+        for i in range(spec["n"]):
+            yield {"work": "paths", "i": i}
     else:
         for i in range(4):
             yield {"work": "upfront", "i": i}
@@ -437,7 +441,57 @@ def run_case(case, ctx):
         return run_in(case, ctx, base, keep, rng)
     if w == "upfront":
         return _upfront(case, ctx)
+    if w == "paths":
+        return _paths(case, ctx)
     raise ValueError(w)
+
+
+def _paths(case, ctx):
+    """History of checks on the SAME file paths whose content is rewritten in between: every verdict must follow
+    the files as they are at the time of the call (no stale state between calls)."""
+    from pandora.check_configuration import check_input_section
+
+    rng = ctx.rng("paths", case["i"])
+    d = os.path.join(ctx.workdir, f"paths{case['i']}")
+    paths = {k: os.path.join(d, f"{k}.tif") for k in ("left", "right", "mask", "grid")}
+    sizes = [(10, 12), (8, 9), (10, 13)]
+    state = {}
+
+    def write(kind, shape):
+        if kind == "grid":
+            gmin, gmax = gen.grids(rng, shape[0], shape[1], -3, 2, "random")
+            rasters.write_tif(paths[kind], np.array([gmin, gmax]), "float32")
+        elif kind == "mask":
+            rasters.write_tif(paths[kind], (rng.random(shape) < 0.1).astype(np.int16), "int16")
+        else:
+            rasters.write_tif(paths[kind], rng.integers(0, 255, shape).astype(np.float32), "float32")
+        state[kind] = shape
+
+    for k in paths:
+        write(k, sizes[0])
+    use_grid = bool(rng.integers(0, 2))
+    steps = []
+    for step in range(int(rng.integers(4, 8))):
+        if step > 0:
+            kind = ["left", "right", "mask", "grid"][int(rng.integers(0, 4))]
+            write(kind, sizes[int(rng.integers(0, len(sizes)))])
+        cfg = {"left": {"img": paths["left"], "mask": paths["mask"], "disp": paths["grid"] if use_grid else [-2, 2]},
+               "right": {"img": paths["right"]}}
+        expect = state["left"] == state["right"] == state["mask"] and (not use_grid or state["grid"] == state["left"])
+        try:
+            check_input_section({"input": copy.deepcopy(cfg)})
+            got, exc = True, None
+        except Exception as e:  # pylint: disable=broad-except
+            got, exc = False, e
+        steps.append({"sizes": dict(state), "expected": expect, "accepted": got})
+        ctx.gate("checks_on_rewritten_paths")
+        if got != expect:
+            ctx.violation("input-section-acceptance",
+                          f"step {step} of a history on fixed paths: files now have sizes {state}, the section is "
+                          f"{'well' if expect else 'mal'}-formed but was {'accepted' if got else 'refused: ' + repr(exc)[:200]}; history {steps}",
+                          case, situation="same-paths-rewritten", desc={"history": steps})
+            break
+    ctx.case(["paths", case["i"], [s_["sizes"] for s_ in steps]])
 
 
 def _upfront(case, ctx):
